@@ -87,6 +87,62 @@ class MathShim:
     def __getattr__(self, k):
         return getattr(math, k)
 
+    # functions of the math module a change to unyt may plausibly reach for, on symbolic reals (anything else on a
+    # symbolic real ends the path as Unsupported: float() on a proxy)
+    @staticmethod
+    def sqrt(x):
+        return x.sqrt() if isinstance(x, SymReal) else math.sqrt(x)
+
+    @staticmethod
+    def pow(x, y):
+        return x ** y if isinstance(x, SymReal) or isinstance(y, SymReal) else math.pow(x, y)
+
+    @staticmethod
+    def fabs(x):
+        return abs(x) if isinstance(x, SymReal) else math.fabs(x)
+
+    @staticmethod
+    def floor(x):
+        return x.__floor__() if isinstance(x, SymReal) else math.floor(x)
+
+    @staticmethod
+    def ceil(x):
+        return x.__ceil__() if isinstance(x, SymReal) else math.ceil(x)
+
+    @staticmethod
+    def trunc(x):
+        return x.__trunc__() if isinstance(x, SymReal) else math.trunc(x)
+
+    @staticmethod
+    def cbrt(x):
+        return x.cbrt() if isinstance(x, SymReal) else math.cbrt(x)
+
+    @staticmethod
+    def prod(xs, start=1):
+        r = start
+        for x in xs:
+            r = r * x
+        return r
+
+    @staticmethod
+    def fsum(xs):
+        r = 0.0
+        for x in xs:
+            r = r + x
+        return r
+
+    @staticmethod
+    def isfinite(x):
+        return True if isinstance(x, SymReal) else math.isfinite(x)
+
+    @staticmethod
+    def isnan(x):
+        return False if isinstance(x, SymReal) else math.isnan(x)
+
+    @staticmethod
+    def isinf(x):
+        return False if isinstance(x, SymReal) else math.isinf(x)
+
     @staticmethod
     def isclose(a, b, *, rel_tol=1e-9, abs_tol=0.0):
         if not isinstance(a, SymReal) and not isinstance(b, SymReal):
@@ -293,7 +349,11 @@ def load_unyt(extra_np=None):
         AF.np = NpShimAF()
     for m in (UO, UR, UA):
         m.float = symfloat
-    UO.math = MathShim()
+    ms = MathShim()
+    for m in (UO, UR, UA, UE, US, AF, UT):  # every unyt module that has (or is given by a change) a global `math`
+        if getattr(m, "math", None) is math:
+            m.math = ms
+    UO.math = ms
     mods = dict(unyt=unyt, UA=UA, UO=UO, UR=UR, US=US, UE=UE, UT=UT, AF=AF)
     _installed["mods"] = mods
     return mods
